@@ -26,12 +26,12 @@ instance {α} (p : α → Prop) [DecidablePred p] (o : Option α) : Decidable (o
 /-- "has one dimension". -/
 def AliData.is1d : AliData → Prop
   | .vec _ => True
-  | .nd _ => False
+  | .nd _ _ => False
 
 /-- "same size first axis as the features" (says nothing about a tensor that is not 1-D). -/
 def AliData.lenIs (T : Nat) : AliData → Prop
   | .vec v => v.length = T
-  | .nd _ => True
+  | .nd _ _ => True
 
 /-- "1 or 2 dimensions". -/
 def RefData.dimOk : RefData → Prop
@@ -138,7 +138,7 @@ def repairAliData (fix : Option Nat) (T : Nat) : AliData → AliData
     match fix with
     | some k => if T < v.length ∧ v.length ≤ T + k then .vec (v.take T) else .vec v
     | none => .vec v
-  | .nd s => .nd s
+  | .nd s fl => .nd s fl
 
 /-- Repairs 3 and 4 on one reference token. -/
 def repairRow (fix : Option Nat) (T : Nat) (r : Row) : Row :=
@@ -168,10 +168,11 @@ def repair (fix : Option Nat) (d : Dir) : Dir := d.map (repairUtt fix)
 
 /-! ## The recount: every reported number as a function of the stored tensors -/
 
+/-- The stored alignment entry by entry (storage order; a 1-D alignment is its own list). -/
 def Utt.aliVals (u : Utt) : List Int :=
   match u.ali with
-  | some ⟨_, _, .vec v⟩ => v
-  | _ => []
+  | some a => a.data.flat
+  | none => []
 
 def Utt.refRows (u : Utt) : List Row :=
   match u.ref with
